@@ -10,6 +10,8 @@ import json, subprocess, sys, glob, os, re
 KF = '/verif/known_findings.json'
 # subject prefix -> (property, id) for fixes made by the main session
 FIXMAP = [
+ ("fix: '...' assigned to a local that is not the last one", ("C02", "F-VARARG1")),
+ ("fix: VARARG with a fixed count reset", ("C02", "F-VARARG2")),
  ("fix: a call or '...' assigned to more than 509 variables", ("C07", "F-CMP-NRET")),
  ("fix: the explist of a generic for was adjusted", ("C01", "F-GENFOR")),
  ("fix: x % y gave -0 for a negative x", ("C01", "F-MOD0")),
